@@ -514,4 +514,245 @@ theorem Call.CaseEq.sim {c c' : Call} (h : c.CaseEq c') : c.Sim c' := by
   rw [h1]; rfl
 
 
+/-! ## `methodFields` (C09) -/
+
+theorem methodFields_eq (doc : Str) (tys ps : List Str) :
+    methodFields doc tys ps =
+      (tys.zip ps).flatMap (fun tp =>
+        (if isInfix (lit ":param " ++ tp.2 ++ [':']) doc then [] else [Elem.field (lit "param " ++ tp.2) []]) ++
+        (if isInfix (lit ":type " ++ tp.2 ++ [':']) doc then [] else [Elem.field (lit "type " ++ tp.2) tp.1])) := by
+  induction tys generalizing ps with
+  | nil => simp [methodFields]
+  | cons ty tys ih =>
+    cases ps with
+    | nil => simp [methodFields]
+    | cons p ps => simp [methodFields, ih]
+
+theorem methodFields_length_le (doc : Str) (tys ps : List Str) :
+    (methodFields doc tys ps).length ≤ 2 * min tys.length ps.length := by
+  induction tys generalizing ps with
+  | nil => simp [methodFields]
+  | cons ty tys ih =>
+    cases ps with
+    | nil => simp [methodFields]
+    | cons p ps =>
+      have := ih ps
+      simp only [methodFields, List.length_append, List.length_cons]
+      split <;> split <;> simp <;> omega
+
+theorem methodFields_plain (doc : Str) (tys ps : List Str)
+    (h : ∀ p ∈ ps, isInfix (lit ":param " ++ p ++ [':']) doc = false ∧ isInfix (lit ":type " ++ p ++ [':']) doc = false) :
+    methodFields doc tys ps =
+      (tys.zip ps).flatMap (fun tp => [Elem.field (lit "param " ++ tp.2) [], Elem.field (lit "type " ++ tp.2) tp.1]) := by
+  induction tys generalizing ps with
+  | nil => simp [methodFields]
+  | cons ty tys ih =>
+    cases ps with
+    | nil => simp [methodFields]
+    | cons p ps =>
+      have hp := h p (by simp)
+      rw [methodFields, if_neg (by rw [hp.1]; simp), if_neg (by rw [hp.2]; simp),
+        ih ps (fun q hq => h q (by simp [hq]))]
+      simp
+
+/-! ## C08: the embedding order and `Cfg.allOff` -/
+
+/-- all ten `include_undocumented_*` flags off; trigger string and strip patterns unchanged -/
+def Cfg.allOff (cfg : Cfg) : Cfg :=
+  { cfg with inclFunction := false, inclMacro := false, inclCppClass := false, inclCppAttr := false,
+             inclCppConstructor := false, inclCppMember := false, inclCtAddTest := false, inclAddTest := false,
+             inclCtAddSection := false, inclOption := false }
+
+/-- all ten flags on (the default settings for these options); trigger string and strip patterns unchanged -/
+def Cfg.allOn (cfg : Cfg) : Cfg :=
+  { cfg with inclFunction := true, inclMacro := true, inclCppClass := true, inclCppAttr := true,
+             inclCppConstructor := true, inclCppMember := true, inclCtAddTest := true, inclAddTest := true,
+             inclCtAddSection := true, inclOption := true }
+
+theorem Cfg.allOn_allOff (cfg : Cfg) : cfg.allOn.allOff = cfg.allOff := rfl
+theorem Cfg.allOff_allOff (cfg : Cfg) : cfg.allOff.allOff = cfg.allOff := rfl
+
+/-- `e'` is `e`, except that a class entry may list more inner classes, constructors, methods and attributes
+    (the ones of `e` in the same relative order) -/
+def Entry.embeds : Entry → Entry → Prop
+  | .cls n d s i c m a, .cls n' d' s' i' c' m' a' =>
+    n = n' ∧ d = d' ∧ s = s' ∧ i.Sublist i' ∧ c.Sublist c' ∧ m.Sublist m' ∧ a.Sublist a'
+  | e, e' => e = e'
+
+theorem Entry.embeds_refl (e : Entry) : e.embeds e := by
+  cases e <;> simp [Entry.embeds]
+
+/-- the first list is obtained from the second by deleting entries and shrinking class entries (`Entry.embeds`) -/
+inductive TopEmbeds : List Entry → List Entry → Prop
+  | nil : TopEmbeds [] []
+  | skip {l l' : List Entry} (e : Entry) : TopEmbeds l l' → TopEmbeds l (e :: l')
+  | keep {l l' : List Entry} {e e' : Entry} : e.embeds e' → TopEmbeds l l' → TopEmbeds (e :: l) (e' :: l')
+
+theorem TopEmbeds.refl : (l : List Entry) → TopEmbeds l l
+  | [] => .nil
+  | e :: l => .keep e.embeds_refl (TopEmbeds.refl l)
+
+theorem TopEmbeds.nil_left : (l : List Entry) → TopEmbeds [] l
+  | [] => .nil
+  | e :: l => .skip e (TopEmbeds.nil_left l)
+
+theorem TopEmbeds.append {a a' b b' : List Entry} (h1 : TopEmbeds a a') (h2 : TopEmbeds b b') :
+    TopEmbeds (a ++ b) (a' ++ b') := by
+  induction h1 with
+  | nil => simpa using h2
+  | skip e _ ih => exact .skip e ih
+  | keep he _ ih => exact .keep he ih
+
+theorem TopEmbeds.length_le {a b : List Entry} (h : TopEmbeds a b) : a.length ≤ b.length := by
+  induction h with
+  | nil => simp
+  | skip e _ ih => simp; omega
+  | keep _ _ ih => simp; omega
+
+/-- componentwise embedding of contributions -/
+structure ContribEmbeds (a b : Contrib) : Prop where
+  top : TopEmbeds a.top b.top
+  inner : a.inner.Sublist b.inner
+  ctors : a.ctors.Sublist b.ctors
+  members : a.members.Sublist b.members
+  attrs : a.attrs.Sublist b.attrs
+
+theorem ContribEmbeds.refl (a : Contrib) : ContribEmbeds a a :=
+  ⟨TopEmbeds.refl _, List.Sublist.refl _, List.Sublist.refl _, List.Sublist.refl _, List.Sublist.refl _⟩
+
+theorem ContribEmbeds.of_eq {a b : Contrib} (h : a = b) : ContribEmbeds a b := h ▸ ContribEmbeds.refl a
+
+theorem ContribEmbeds.nil_left (b : Contrib) : ContribEmbeds {} b :=
+  ⟨TopEmbeds.nil_left _, List.nil_sublist _, List.nil_sublist _, List.nil_sublist _, List.nil_sublist _⟩
+
+theorem ContribEmbeds.append {a a' b b' : Contrib} (h1 : ContribEmbeds a a') (h2 : ContribEmbeds b b') :
+    ContribEmbeds (a ++ b) (a' ++ b') :=
+  ⟨h1.top.append h2.top, h1.inner.append h2.inner, h1.ctors.append h2.ctors, h1.members.append h2.members,
+   h1.attrs.append h2.attrs⟩
+
+/-! ### what `allOff` does -/
+
+theorem defEntry_allOff (cfg : Cfg) (isMacro : Bool) (doc : Option DocC) (c : Call) (body : List Item) :
+    defEntry cfg.allOff isMacro doc c body = defEntry cfg isMacro doc c body := rfl
+
+theorem methodOf_allOff (cfg : Cfg) (doc : Option DocC) (d impl : Call) (isCtor : Bool) :
+    methodOf cfg.allOff doc d impl isCtor = methodOf cfg doc d impl isCtor := rfl
+
+theorem asDefinition_allOff (cfg : Cfg) (impl : Call) (body : List Item) : asDefinition cfg.allOff impl body = {} := by
+  simp [asDefinition, Cfg.allOff]
+
+theorem spec_cmd_none_allOff (cfg : Cfg) (ctx : ClsCtx) (call : Call) :
+    (Item.cmd none call).spec cfg.allOff ctx = {} := by
+  simp [Item.spec, Cfg.allOff]
+
+theorem spec_cmd_some_allOff (cfg : Cfg) (ctx : ClsCtx) (d : DocC) (call : Call) :
+    (Item.cmd (some d) call).spec cfg.allOff ctx = (Item.cmd (some d) call).spec cfg ctx := by
+  simp [Item.spec, Cfg.allOff]
+
+/-- the general form of the member-like branch of `Item.spec` (any declaration name other than the test ones) -/
+theorem spec_decl_memberlike (cfg : Cfg) (ctx : ClsCtx) (doc : Option DocC) (d impl : Call) (body : List Item) (c : Call)
+    (h1 : d.lname ≠ lit "ct_add_test") (h2 : d.lname ≠ lit "ct_add_section") :
+    (Item.decl doc d impl body c).spec cfg ctx =
+      (if ctx = .shown && (doc.isSome ||
+            (if d.lname = lit "cpp_constructor" then cfg.inclCppConstructor else cfg.inclCppMember)) then
+         (if d.lname = lit "cpp_constructor" then { ctors := [methodOf cfg doc d impl true] }
+          else { members := [methodOf cfg doc d impl false] })
+       else asDefinition cfg impl body) ++ itemsSpec cfg ctx body := by
+  by_cases hc : d.lname = lit "cpp_constructor"
+  · rw [spec_decl_ctor_if cfg ctx doc d impl body c hc]; simp [hc]
+  · simp [Item.spec, h1, h2, hc, asDefinition, methodOf]
+
+theorem cmd_embed (cfg : Cfg) (doc : Option DocC) (call : Call) (ctx₁ ctx₂ : ClsCtx)
+    (hctx : ctx₁ = .shown → ctx₂ = .shown) :
+    ContribEmbeds ((Item.cmd doc call).spec cfg.allOff ctx₁) ((Item.cmd doc call).spec cfg ctx₂) := by
+  cases doc with
+  | none => rw [spec_cmd_none_allOff]; exact ContribEmbeds.nil_left _
+  | some d =>
+    rw [spec_cmd_some_allOff]
+    by_cases h4 : call.lname = lit "cpp_attr"
+    · rw [spec_cmd_attr cfg ctx₁ _ _ h4, spec_cmd_attr cfg ctx₂ _ _ h4]
+      by_cases hs : ctx₁ = .shown
+      · simp [hs, hctx hs]; exact ContribEmbeds.refl _
+      · simp [hs]; exact ContribEmbeds.nil_left _
+    · apply ContribEmbeds.of_eq
+      simp [Item.spec, h4]
+
+mutual
+theorem Item.spec_embed (cfg : Cfg) : (it : Item) → ∀ ctx₁ ctx₂ : ClsCtx, (ctx₁ = .shown → ctx₂ = .shown) →
+    ContribEmbeds (it.spec cfg.allOff ctx₁) (it.spec cfg ctx₂)
+  | .cmd doc call, ctx₁, ctx₂, hctx => cmd_embed cfg doc call ctx₁ ctx₂ hctx
+  | .block doc o body c, ctx₁, ctx₂, hctx => by
+    by_cases hf : o.lname = lit "function"
+    · rw [spec_block_function _ ctx₁ doc o body c hf, spec_block_function _ ctx₂ doc o body c hf]
+      refine ContribEmbeds.append ?_ (itemsSpec_embed cfg body ctx₁ ctx₂ hctx)
+      cases doc with
+      | none => simp [Cfg.allOff]; exact ContribEmbeds.nil_left _
+      | some d => simp [defEntry_allOff]; exact ContribEmbeds.refl _
+    by_cases hm : o.lname = lit "macro"
+    · rw [spec_block_macro _ ctx₁ doc o body c hm, spec_block_macro _ ctx₂ doc o body c hm]
+      refine ContribEmbeds.append ?_ (itemsSpec_embed cfg body ctx₁ ctx₂ hctx)
+      cases doc with
+      | none => simp [Cfg.allOff]; exact ContribEmbeds.nil_left _
+      | some d => simp [defEntry_allOff]; exact ContribEmbeds.refl _
+    by_cases hc : o.lname = lit "cpp_class"
+    · cases doc with
+      | some d =>
+        have ih := itemsSpec_embed cfg body .shown .shown (fun h => h)
+        rw [spec_block_class_shown _ ctx₁ (some d) o body c hc (Or.inl rfl),
+          spec_block_class_shown _ ctx₂ (some d) o body c hc (Or.inl rfl)]
+        refine ⟨.keep ⟨rfl, rfl, rfl, ih.inner, ih.ctors, ih.members, ih.attrs⟩ ih.top, ?_,
+          List.Sublist.refl _, List.Sublist.refl _, List.Sublist.refl _⟩
+        by_cases hs : ctx₁ = .shown
+        · simp [hs, hctx hs]
+        · simp [hs]
+      | none =>
+        rw [spec_block_class_hidden _ ctx₁ o body c hc rfl]
+        cases hi : cfg.inclCppClass with
+        | true =>
+          rw [spec_block_class_shown _ ctx₂ none o body c hc (Or.inr hi)]
+          have ih := itemsSpec_embed cfg body .hidden .shown (fun h => by cases h)
+          exact ⟨.skip _ ih.top, List.nil_sublist _, List.nil_sublist _, List.nil_sublist _, List.nil_sublist _⟩
+        | false =>
+          rw [spec_block_class_hidden _ ctx₂ o body c hc hi]
+          have ih := itemsSpec_embed cfg body .hidden .hidden (fun h => h)
+          exact ⟨ih.top, List.nil_sublist _, List.nil_sublist _, List.nil_sublist _, List.nil_sublist _⟩
+    · rw [spec_block_other _ ctx₁ doc o body c hf hm hc, spec_block_other _ ctx₂ doc o body c hf hm hc]
+      exact ContribEmbeds.append (ContribEmbeds.refl _) (itemsSpec_embed cfg body ctx₁ ctx₂ hctx)
+  | .decl doc d impl body c, ctx₁, ctx₂, hctx => by
+    have ihb := itemsSpec_embed cfg body ctx₁ ctx₂ hctx
+    by_cases ht : d.lname = lit "ct_add_test"
+    · rw [spec_decl_test_if _ ctx₁ doc d impl body c ht, spec_decl_test_if _ ctx₂ doc d impl body c ht]
+      refine ContribEmbeds.append ?_ ihb
+      cases doc with
+      | none => simp [Cfg.allOff, asDefinition]; exact ContribEmbeds.nil_left _
+      | some d => simp; exact ContribEmbeds.refl _
+    by_cases hs : d.lname = lit "ct_add_section"
+    · rw [spec_decl_section_if _ ctx₁ doc d impl body c hs, spec_decl_section_if _ ctx₂ doc d impl body c hs]
+      refine ContribEmbeds.append ?_ ihb
+      cases doc with
+      | none => simp [Cfg.allOff, asDefinition]; exact ContribEmbeds.nil_left _
+      | some d => simp; exact ContribEmbeds.refl _
+    · rw [spec_decl_memberlike _ ctx₁ doc d impl body c ht hs, spec_decl_memberlike _ ctx₂ doc d impl body c ht hs]
+      refine ContribEmbeds.append ?_ ihb
+      by_cases hc₁ : ctx₁ = .shown ∧ doc.isSome = true
+      · have hc₂ := hctx hc₁.1
+        simp [hc₁.1, hc₁.2, hc₂, methodOf_allOff]; exact ContribEmbeds.refl _
+      · have : (ctx₁ = .shown && (doc.isSome || (if d.lname = lit "cpp_constructor" then cfg.allOff.inclCppConstructor
+            else cfg.allOff.inclCppMember))) = false := by
+          have e1 : cfg.allOff.inclCppConstructor = false := rfl
+          have e2 : cfg.allOff.inclCppMember = false := rfl
+          rw [e1, e2]
+          by_cases h1 : ctx₁ = .shown <;> cases h2 : doc.isSome <;> simp_all
+        rw [this]
+        simp only [Bool.false_eq_true, if_false, asDefinition_allOff]
+        exact ContribEmbeds.nil_left _
+  | .dangling _, _, _, _ => by simp [Item.spec]; exact ContribEmbeds.refl _
+theorem itemsSpec_embed (cfg : Cfg) : (items : List Item) → ∀ ctx₁ ctx₂ : ClsCtx, (ctx₁ = .shown → ctx₂ = .shown) →
+    ContribEmbeds (itemsSpec cfg.allOff ctx₁ items) (itemsSpec cfg ctx₂ items)
+  | [], _, _, _ => by simp [itemsSpec]; exact ContribEmbeds.refl _
+  | i :: is, ctx₁, ctx₂, hctx => by
+    rw [itemsSpec_cons, itemsSpec_cons]
+    exact ContribEmbeds.append (Item.spec_embed cfg i ctx₁ ctx₂ hctx) (itemsSpec_embed cfg is ctx₁ ctx₂ hctx)
+end
+
 end Cminx
